@@ -6,6 +6,39 @@ use crate::driver::{digest, par_map, shrink_world, Case, Ctx, Found, Report};
 use crate::world::{run_world, RunResult, Violation, World};
 
 pub mod c01;
+pub mod c02;
+pub mod c03;
+pub mod c04;
+pub mod c05;
+pub mod c06;
+pub mod c07;
+
+pub fn run_check(id: &str, ctx: &Ctx) -> Option<Report> {
+    Some(match id {
+        "C01" => c01::run(ctx),
+        "C02" => c02::run(ctx),
+        "C03" => c03::run(ctx),
+        "C04" => c04::run(ctx),
+        "C05" => c05::run(ctx),
+        "C06" => c06::run(ctx),
+        "C07" => c07::run(ctx),
+        _ => return None,
+    })
+}
+
+/// clauses of Model A / the executor that a property's check owns
+pub fn own_clauses(id: &str) -> &'static [&'static str] {
+    match id {
+        "C01" => c01::OWN,
+        "C02" => c02::OWN,
+        "C03" => c03::OWN,
+        "C04" => c04::OWN,
+        "C05" => c05::OWN,
+        "C06" => c06::OWN,
+        "C07" => c07::OWN,
+        _ => &[],
+    }
+}
 
 pub struct WorldOut {
     pub world: World,
